@@ -40,8 +40,7 @@ fn field_u32(buf: &mut Vec<u8>, code: u8, v: u32) {
 
 struct Incoming {
     serial: u32,
-    typ: u8, // 1 call, 2 method return
-    extra_reply_serial: bool, // a call that also carries a REPLY_SERIAL field (allowed on the wire)
+    kind: char, // c call, k call that also carries a REPLY_SERIAL field, s signal, r method return, e error
     object: Option<Vec<u8>>,
     sender: Option<Vec<u8>>,
 }
@@ -52,18 +51,33 @@ fn encode(m: &Incoming) -> Vec<u8> {
     if let Some(o) = &m.object {
         field_str(&mut fields, 1, b'o', o);
     }
-    if m.typ == 1 {
-        field_str(&mut fields, 3, b's', b"M");
-        if m.extra_reply_serial {
-            field_u32(&mut fields, 5, 999);
+    let typ = match m.kind {
+        'c' | 'k' => {
+            field_str(&mut fields, 3, b's', b"M");
+            if m.kind == 'k' {
+                field_u32(&mut fields, 5, 999);
+            }
+            1
         }
-    } else {
-        field_u32(&mut fields, 5, 999);
-    }
+        's' => {
+            field_str(&mut fields, 2, b's', b"verif.I");
+            field_str(&mut fields, 3, b's', b"M");
+            4
+        }
+        'e' => {
+            field_str(&mut fields, 4, b's', b"verif.Err");
+            field_u32(&mut fields, 5, 999);
+            3
+        }
+        _ => {
+            field_u32(&mut fields, 5, 999);
+            2
+        }
+    };
     if let Some(s) = &m.sender {
         field_str(&mut fields, 7, b's', s);
     }
-    let mut buf = vec![b'l', m.typ, 0, 1];
+    let mut buf = vec![b'l', typ, 0, 1];
     put_u32(&mut buf, 0);
     put_u32(&mut buf, m.serial);
     put_u32(&mut buf, fields.len() as u32);
@@ -342,8 +356,7 @@ fn do_run(routes: &str, msgs: &str) -> String {
             let serial: u32 = f[0].parse().unwrap();
             incoming.push(Incoming {
                 serial,
-                typ: if f[1] == "c" || f[1] == "k" { 1 } else { 2 },
-                extra_reply_serial: f[1] == "k",
+                kind: f[1].chars().next().unwrap(),
                 object: opt_bytes(f[2]),
                 sender: opt_bytes(f[3]),
             });
